@@ -1396,6 +1396,218 @@ func runC03(c *core.Ctx) core.Meta {
 		}
 	}
 
+	// ---------------- R03.16 32-bit instructions do not let bits 32..63 of an operand value decide anything ----------------
+	st16 := c.Rule("R03.16", "ReadOperand returns 64 bits, and for an inline constant such as -1 they are the sign extension; in the handler of a 32-bit instruction (every mnemonic it serves ends in b32 / u32 / i32 / f32) such a raw value is truncated or masked to 32 bits before it is shifted right, divided, compared or tested against zero - operations in which the upper half changes the low half of the result or the condition code", 60)
+	n32 := regexp.MustCompile(`_(b|u|i|f)32(_e32|_e64)?$`)
+	for _, a := range alus {
+		byFn := map[string][]string{}
+		for _, h := range handlers {
+			if h.alu.pkg == a.pkg {
+				byFn[h.name] = append(byFn[h.name], h.insts...)
+			}
+		}
+		for _, fname := range sortedKeys(byFn) {
+			names := byFn[fname]
+			all32 := len(names) > 0
+			for _, n := range names {
+				if !n32.MatchString(n) || strings.Contains(n, "64") || strings.Contains(n, "_i24") || strings.Contains(n, "_u24") || strings.HasPrefix(n, "v_pk_") {
+					all32 = false
+				}
+			}
+			if !all32 {
+				continue
+			}
+			fn := c.SSAFunc(a.pkg, a.typ+"."+fname)
+			if fn == nil {
+				continue
+			}
+			memo := map[ssa.Value]bool{}
+			var dirty func(v ssa.Value, depth int) bool
+			dirty = func(v ssa.Value, depth int) bool {
+				if d, ok := memo[v]; ok {
+					return d
+				}
+				if depth > 20 {
+					return false
+				}
+				memo[v] = false
+				res := false
+				switch t := v.(type) {
+				case *ssa.Call:
+					if name, cc := stateMethod(t); name == "ReadOperand" {
+						pv := prov.Of(cc.Args[0])
+						res = strings.HasSuffix(pv, ".Src0") || strings.HasSuffix(pv, ".Src1") || strings.HasSuffix(pv, ".Src2")
+					}
+				case *ssa.BinOp:
+					bt, ok := t.Type().Underlying().(*types.Basic)
+					if ok && (bt.Kind() == types.Uint64 || bt.Kind() == types.Int64) {
+						switch t.Op {
+						case token.AND:
+							// a mask, or the AND of two operand values (at most one of them is a sign-extended
+							// inline constant, the other a zero-extended register), has a clean upper half
+							res = false
+						case token.ADD, token.SUB, token.MUL, token.OR, token.XOR, token.SHL:
+							res = dirty(t.X, depth+1) || dirty(t.Y, depth+1)
+						}
+					}
+				case *ssa.Phi:
+					for _, e := range t.Edges {
+						if dirty(e, depth+1) {
+							res = true
+						}
+					}
+				}
+				memo[v] = res
+				return res
+			}
+			for _, b := range fn.Blocks {
+				for _, in := range b.Instrs {
+					bo, ok := in.(*ssa.BinOp)
+					if !ok {
+						continue
+					}
+					var sens []ssa.Value
+					switch bo.Op {
+					case token.SHR, token.QUO, token.REM:
+						sens = []ssa.Value{bo.X}
+					case token.LSS, token.LEQ, token.GTR, token.GEQ, token.EQL, token.NEQ:
+						sens = []ssa.Value{bo.X, bo.Y}
+					default:
+						continue
+					}
+					for _, v := range sens {
+						if !dirty(v, 0) {
+							continue
+						}
+						// x >> k whose only use is masked so that the selected bits lie below bit 32
+						if bo.Op == token.SHR {
+							if k, isC := core.ConstInt(bo.Y); isC && bo.Referrers() != nil {
+								fine := len(*bo.Referrers()) > 0
+								for _, r := range *bo.Referrers() {
+									and, ok := r.(*ssa.BinOp)
+									if !ok || and.Op != token.AND {
+										if cvt, isCv := r.(*ssa.Convert); isCv {
+											if bt, okB := cvt.Type().Underlying().(*types.Basic); okB && (bt.Kind() == types.Uint8 || bt.Kind() == types.Uint16) && k <= 16 {
+												continue
+											}
+										}
+										fine = false
+										continue
+									}
+									other := and.X
+									if other == ssa.Value(bo) {
+										other = and.Y
+									}
+									m, isM := core.ConstUint(other)
+									if !isM || (m<<uint(k)) > 0xffffffff {
+										fine = false
+									}
+								}
+								if fine {
+									continue
+								}
+							}
+						}
+						st16.Instances++
+						st16.Ob(false)
+						c.MarkAnalysed(fn)
+						c.ReportAt("R03.16", fn, in.Pos(), "upper-bits:"+bo.Op.String(), fmt.Sprintf("%s (%s) applies %s to %s, the raw 64-bit value of a source operand: for an inline constant such as -1 bits 32..63 are set and change the 32-bit result or the condition code", fname, strings.Join(names, ", "), bo.Op, short(prov.Of(v))))
+					}
+				}
+			}
+			st16.Instances++
+			st16.Ob(true)
+		}
+	}
+
+	// ---------------- R03.17 signed add / sub set SCC from signed overflow ----------------
+	st17 := c.Rule("R03.17", "s_add_i32 / s_sub_i32 / s_addk_i32 / s_mulk_i32 define SCC as signed overflow: the comparisons that decide SetSCC in their handlers are made on signed values (an unsigned carry test gives 1 for -1 + 3 and 0 for 0x7fffffff + 1)", 3)
+	sovName := regexp.MustCompile(`^s_(add|sub|addk)_i32$`)
+	seen17 := map[string]bool{}
+	for _, h := range handlers {
+		for _, iname := range h.insts {
+			if !sovName.MatchString(iname) || seen17[h.alu.pkg+"."+h.name] {
+				continue
+			}
+			seen17[h.alu.pkg+"."+h.name] = true
+			fn := c.SSAFunc(h.alu.pkg, h.alu.typ+"."+h.name)
+			if fn == nil {
+				continue
+			}
+			// comparisons that decide which SetSCC constant is executed: Ifs that dominate a SetSCC
+			var sccBlocks []*ssa.BasicBlock
+			for _, b := range fn.Blocks {
+				for _, in := range b.Instrs {
+					if name, _ := stateMethod(in); name == "SetSCC" {
+						sccBlocks = append(sccBlocks, b)
+					}
+				}
+			}
+			unsignedCmp := ""
+			signedCmp := false
+			for _, b := range fn.Blocks {
+				iff, ok := b.Instrs[len(b.Instrs)-1].(*ssa.If)
+				if !ok {
+					continue
+				}
+				decides := false
+				for _, sb := range sccBlocks {
+					if b.Dominates(sb) {
+						decides = true
+					}
+				}
+				if !decides {
+					continue
+				}
+				var visit func(v ssa.Value, d int)
+				visit = func(v ssa.Value, d int) {
+					bo, ok := v.(*ssa.BinOp)
+					if !ok || d > 4 {
+						return
+					}
+					switch bo.Op {
+					case token.LSS, token.LEQ, token.GTR, token.GEQ:
+						if bt, ok := bo.X.Type().Underlying().(*types.Basic); ok && bt.Info()&types.IsInteger != 0 {
+							if bt.Info()&types.IsUnsigned != 0 {
+								unsignedCmp = core.InstrString(bo)
+							} else {
+								signedCmp = true
+							}
+						}
+					}
+				}
+				visit(iff.Cond, 0)
+			}
+			// the flag may also be computed as a value: phi of constants decided by comparisons
+			for _, b := range fn.Blocks {
+				for _, in := range b.Instrs {
+					if bo, ok := in.(*ssa.BinOp); ok {
+						switch bo.Op {
+						case token.LSS, token.LEQ, token.GTR, token.GEQ:
+							if bt, ok := bo.X.Type().Underlying().(*types.Basic); ok && bt.Info()&types.IsInteger != 0 {
+								if bt.Info()&types.IsUnsigned != 0 {
+									if unsignedCmp == "" {
+										unsignedCmp = core.InstrString(bo)
+									}
+								} else {
+									signedCmp = true
+								}
+							}
+						}
+					}
+				}
+			}
+			st17.Instances++
+			c.MarkAnalysed(fn)
+			ok := signedCmp && unsignedCmp == ""
+			st17.Ob(ok)
+			st17.Sample("%s.%s (%s): SCC decided by signed comparisons only: %v", h.alu.typ, h.name, iname, ok)
+			if !ok {
+				c.ReportAt("R03.17", fn, fn.Pos(), "scc-not-signed-overflow:"+iname, fmt.Sprintf("%s decides SCC with the unsigned comparison %s: %s defines SCC as signed overflow (0x7fffffff + 1 must set it, 0xffffffff + 3 must not)", h.name, unsignedCmp, iname))
+			}
+		}
+	}
+
 	// ---------------- R03.2 shift-amount masking ----------------
 	st2 := c.Rule("R03.2", "in handlers of shift instructions (tied to their names through decode table -> dispatch switch -> callee) every data-dependent shift amount is confined to [0, W-1] (W from the instruction name) by a mask or modulus before it reaches the Go shift, because Go saturates where the ISA uses the low 4/5/6 bits", 15)
 	seenH := map[string]bool{}
@@ -1516,8 +1728,17 @@ func runC03(c *core.Ctx) core.Meta {
 					}
 					for _, opnd := range []ssa.Value{cmp.X, cmp.Y} {
 						sum, ok := opnd.(*ssa.BinOp)
-						if !ok || sum.Op != token.ADD {
+						if !ok || (sum.Op != token.ADD && sum.Op != token.SUB) {
 							continue
+						}
+						if sum.Op == token.SUB {
+							// MAX - x cannot wrap; (MAX - x) - y, or any difference whose minuend is data, can
+							if _, isC := core.ConstUint(sum.X); isC {
+								continue
+							}
+							if _, isC := core.ConstInt(sum.X); isC {
+								continue
+							}
 						}
 						// only sums of data values (not loop counters / constants-only)
 						if _, isC := core.ConstInt(sum.Y); isC {
